@@ -66,6 +66,8 @@ type Result struct {
 	RawList z.ZogIssueList
 	// a callback saw a context value that this call did not set
 	CtxLeak string
+	// a callback was handed a pointer that is not the address of a part of the destination
+	StrayPtr string
 }
 
 func issOf(i *z.ZogIssue) Iss {
@@ -146,7 +148,7 @@ func Run(c *Case) (res *Result) {
 		w := *c
 		w.AltDest, w.WarmOther = !c.AltDest, false
 		runOn(schema, &w, rec, data)
-		rec.Events, rec.Order, rec.OrderPaths, rec.CtxLeak = nil, map[string][]string{}, nil, ""
+		rec.Events, rec.Order, rec.OrderPaths, rec.CtxLeak, rec.Ptrs = nil, map[string][]string{}, nil, "", nil
 		if c.Mode == "p" {
 			data = c.Input.Go()
 		}
@@ -169,7 +171,7 @@ func RunTwice(c *Case) (first, second *Result, inputChanged string) {
 	if c.Mode == "p" && before != after && c.Input.K != "x" {
 		inputChanged = "before " + before + " after " + after
 	}
-	rec.Events, rec.Order, rec.OrderPaths, rec.CtxLeak = nil, map[string][]string{}, nil, ""
+	rec.Events, rec.Order, rec.OrderPaths, rec.CtxLeak, rec.Ptrs = nil, map[string][]string{}, nil, "", nil
 	// every other case: the caller hands the first result back to the library (Collect helpers) before
 	// the second use — what the library does with a returned result must not change the schema either
 	if c.ID%2 == 0 {
@@ -290,6 +292,7 @@ func runOnOpt(schema z.ZogSchema, c *Case, rec *Recorder, data any, hook bool) (
 	}
 	dest := reflect.New(c.destType())
 	SetD(c.Schema, dest.Elem(), c.Dest)
+	rec.Root = dest.Elem()
 	defer func() {
 		if r := recover(); r != nil {
 			if os.Getenv("VERIF_PANIC") != "" {
@@ -396,6 +399,7 @@ func runOnOpt(schema z.ZogSchema, c *Case, rec *Recorder, data any, hook bool) (
 		res.RawList = rawList
 	}
 	res.CtxLeak = rec.CtxLeak
+	res.StrayPtr = rec.StrayPtr(dest.Elem())
 	res.Dest = DOf(c.Schema, dest.Elem())
 	res.Events = rec.Events
 	res.Order = rec.Order
